@@ -1669,6 +1669,20 @@ impl ComponentDb {
         })
     }
 
+    /// If the component is an error handler registered by the user, return the id of its registration.
+    pub(crate) fn error_handler_user_component_id(&self, id: ComponentId) -> Option<UserComponentId> {
+        if !self.is_error_handler(id) {
+            return None;
+        }
+        match &self[id] {
+            Component::Transformer {
+                source_id: SourceId::UserComponentId(user_component_id),
+                ..
+            } => Some(*user_component_id),
+            _ => None,
+        }
+    }
+
     pub(crate) fn user_component_id(&self, id: ComponentId) -> Option<UserComponentId> {
         match &self[id] {
             Component::Constructor {
